@@ -42,7 +42,10 @@ fn case_variant(n: &str) -> Option<String> {
 
 fn query_for(n: &str) -> String {
     let variant = case_variant(n).map(|v| format!(" variant: inner2 {{ {}: {} }}", v, n)).unwrap_or_default();
-    format!("query Q(${n}: Int, $i: In, $o: One, $e: E) {{ {n} aliased: inner {{ {n}: plain }}{variant} e }}\n", n = n, variant = variant)
+    // default values name the keyword too: as a member of an input-object literal, as the member of a `@oneOf` literal (its
+    // variant identifier is the UpperCamelCase form - `Self` for `self`) and as an enum value
+    let enum_default = if matches!(n, "true" | "false" | "null") { String::new() } else { format!(" = {}", n) };
+    format!("query Q(${n}: Int = 7, $i: In = {{ {n}: 1 }}, $o: One = {{ {n}: 2 }}, $e: E{ed}) {{ {n} aliased: inner {{ {n}: plain }}{variant} e }}\n", n = n, variant = variant, ed = enum_default)
 }
 
 pub fn run(a: &Args) -> i32 {
